@@ -803,6 +803,8 @@ where
         // If too many bad pivot choices were made, simply fall back to heapsort in order to
         // guarantee `O(n * log(n))` worst-case.
         if limit == 0 {
+            #[cfg(nucleo_verif)]
+            crate::verif::probe("sort.heapsort");
             heapsort(v, is_less);
             return false;
         }
@@ -810,6 +812,8 @@ where
         // If the last partitioning was imbalanced, try breaking patterns in the slice by shuffling
         // some elements around. Hopefully we'll choose a better pivot this time.
         if !was_balanced {
+            #[cfg(nucleo_verif)]
+            crate::verif::probe("sort.break_patterns");
             break_patterns(v);
             limit -= 1;
         }
@@ -822,6 +826,8 @@ where
         if was_balanced && was_partitioned && likely_sorted {
             // Try identifying several out-of-order elements and shifting them to correct
             // positions. If the slice ends up being completely sorted, we're done.
+            #[cfg(nucleo_verif)]
+            crate::verif::probe("sort.partial_insertion");
             if partial_insertion_sort(v, is_less) {
                 return false;
             }
@@ -832,6 +838,8 @@ where
         // This case is usually hit when the slice contains many duplicate elements.
         if let Some(ref p) = pred {
             if !is_less(p, &v[pivot]) {
+                #[cfg(nucleo_verif)]
+                crate::verif::probe("sort.partition_equal");
                 let mid = partition_equal(v, pivot, is_less);
 
                 // Continue sorting elements greater than the pivot.
@@ -863,8 +871,12 @@ where
                 v = left;
             }
         } else if canceled.load(atomic::Ordering::Relaxed) {
+            #[cfg(nucleo_verif)]
+            crate::verif::probe("sort.canceled_at_fork");
             break true;
         } else {
+            #[cfg(nucleo_verif)]
+            crate::verif::probe("sort.fork");
             // Sort the left and right half in parallel.
             let (canceled1, canceled2) = rayon::join(
                 || recurse(left, is_less, pred, limit, canceled),
